@@ -1166,6 +1166,10 @@ def run(tier, rep):
             # 3.4's PARSER accepts a starred expression anywhere a star_expr fits ('del *a', '[*a for a in b]', '(*a) = 1',
             # '*a = b'): 3.4 rejects misuse in the compiler, 3.11 already in the parser. Not text outside the 3.4 grammar.
             rep.extra_starred = getattr(rep, 'extra_starred', 0) + 1
+        elif 'dump' in g and feat == 'mutation' and re.search(r'(^|\n)[ \t]*\\\n[ \t]', c['src']):
+            # a physical line that consists of a backslash continuation only, followed by an indented line: the 3.4 tokenizer measures the
+            # indentation at the backslash (none), 3.11 (bpo-46091) at the continuation text ("unexpected indent"). Version-unstable, not judged.
+            rep.extra_bslash = getattr(rep, 'extra_bslash', 0) + 1
         elif 'dump' in g:
             sub = rej_class(c['src'], g['dump']) if feat == 'mutation' else 'text=' + c['src'].strip()[:40]
             rep.violation('C06|reject|%s|accepted-text-outside-grammar|%s' % (feat, sub), w)
